@@ -1,6 +1,7 @@
 (* C13 — names map to distinct datapath registers with a stable built-in ABI.
    Statements only; proofs live in Portus.Lang.ScopeFacts. *)
-From Portus Require Import Image ScopeFacts.
+From Portus Require Import Image ScopeFacts TablesTie.
+From PortusGen Require Import LangTables.
 
 (* [reports] / [controls] are the declarations in the order Prog::new_with_scope registers them
    (Report-block variables, then legacy Report.x declarations; then the others).  With names
@@ -56,3 +57,11 @@ Example C13_example :
   | _ => False
   end.
 Proof. vm_compute. repeat split; reflexivity. Qed.
+
+(* translator obligation (lib/gen_langtables.py reads Scope::new from src/lang/datapath.rs on every
+   run): inserting the source's built-in rows in the source's order gives the model's initial
+   scope, whose indices the theorems above fix *)
+Theorem C13_source_builtin_table_is_the_models :
+  fold_left (fun l kv => rf_insert l (fst kv) (snd kv)) impl_builtins [] = sc_named scope_new.
+Proof. exact builtins_tie. Qed.
+Print Assumptions C13_source_builtin_table_is_the_models.
